@@ -640,6 +640,12 @@ def decoder_fields(prog, pv, ms, body, owner_rx, record_short):
         return []
 
     for fb in prog.family(body):
+        # the record built as a struct literal in the decoder itself (no constructor call): fields filled from the input
+        for pos, s in fb.stmts():
+            if s.k == "assign" and s.rv["k"] == "agg" and s.rv.get("agg") == "adt" and re.search(owner_rx, s.rv.get("adt", "")):
+                for f, o in zip(s.rv["fields"], s.rv["ops"]):
+                    if params_of(pv.of_operand(fb, o), body.id) or params_of(pv.of_operand(fb, o), fb.id):
+                        out.add(f)
         for bi, t in fb.calls():
             for tg in impls(t.callee):
                 if tg.kind not in ("Fn", "AssocFn"):
